@@ -224,7 +224,40 @@ def run(ctx: core.Ctx) -> int:
                    ("SIBLINGS", "Python and C++ tick plans are equal")):
         ctx.rule(rid, t)
     traces = {}
-    # ---- Python
+    py_part(ctx, traces)
+    # "the Python and C++ runtimes issue the same sequence of filter calls": both step with the same maximum, i.e. the configured value reaches the
+    # generated C++ constant without lossy formatting (C10's MAG rule on the generator)
+    from . import c10 as _c10
+    ctx.rule("MAG", "the configured maximum step is printed losslessly into cpp::Config::max_dt_sec / Tag::max_dt_sec (shared with C10)")
+    _c10.mag_gen(ctx)
+    # ... and both cut a move into the same steps: each runtime's step function follows the one step-plan template (C10's DIR / MAG / TEMPLATE
+    # rules, evaluated here for the sibling clause: a step function that deviates issues a different sequence of prediction calls than the other
+    # runtime for the same history)
+    ctx.rule("STEP-SIBLINGS", "the Python and the C++ step function follow the same step plan (direction, magnitude, count and remainder template)")
+    sub = core.Ctx(ctx.prop, ctx.tier, ctx.repo)
+    _c10.step_rules(sub)
+    ns = 0
+    for o in sub.obligations:
+        if o.rule in ("DIR", "MAG", "TEMPLATE"):
+            ns += 1
+            ctx.obligations.append(core.Obligation("STEP-SIBLINGS", o.where, o.fact, o.ok))
+    for f in sub.findings:
+        if f.rule in ("DIR", "MAG", "TEMPLATE"):
+            ctx.find("STEP-SIBLINGS", f.file, f.func, f.construct, f.msg + " -- the two runtimes then issue different sequences of filter calls", f.line)
+    for e in sub.errors:
+        ctx.error(e)
+    ctx.floor("STEP-SIBLINGS", ns, 10, "step-plan obligations of the two step functions")
+    nt = cpp_part(ctx, traces)
+    ctx.floor("TICKPLAN", nt + 1, 9, "tick bodies (1 Python + 2 per C++ valuation)")
+    ref = traces.get("python")
+    for k, t in traces.items():
+        ctx.oblige("SIBLINGS", f"{k}", f"trace {t}", t == ref, file=HDR if k != "python" else PYF, func="tick", construct=f"sibling trace {k.split()[0]}",
+                   msg=f"the call skeleton of {k} is {t}, Python's is {ref}")
+    return core.finish(ctx, explanation="E5: ordered event lists of every tick body vs the TickPlan; effect analysis of held fields", **META)
+
+
+def py_part(ctx: core.Ctx, traces):
+    """the Python tick against the plan (also used by C10 for the hold clause)"""
     rel, cls = rtmodel.py_runtime(ctx)
     fn = rtmodel.py_runtime_func(ctx, cls, "tick")
     ctx.functions.append("runtime.ManagedFilter.tick")
@@ -241,18 +274,6 @@ def run(ctx: core.Ctx) -> int:
     traces["python"] = canon(te.events)
     if not te.problems:
         flow_py(ctx, rel, cls, body, names)
-    # "the Python and C++ runtimes issue the same sequence of filter calls": both step with the same maximum, i.e. the configured value reaches the
-    # generated C++ constant without lossy formatting (C10's MAG rule on the generator)
-    from . import c10 as _c10
-    ctx.rule("MAG", "the configured maximum step is printed losslessly into cpp::Config::max_dt_sec / Tag::max_dt_sec (shared with C10)")
-    _c10.mag_gen(ctx)
-    nt = cpp_part(ctx, traces)
-    ctx.floor("TICKPLAN", nt + 1, 9, "tick bodies (1 Python + 2 per C++ valuation)")
-    ref = traces.get("python")
-    for k, t in traces.items():
-        ctx.oblige("SIBLINGS", f"{k}", f"trace {t}", t == ref, file=HDR if k != "python" else PYF, func="tick", construct=f"sibling trace {k.split()[0]}",
-                   msg=f"the call skeleton of {k} is {t}, Python's is {ref}")
-    return core.finish(ctx, explanation="E5: ordered event lists of every tick body vs the TickPlan; effect analysis of held fields", **META)
 
 
 def flow_py(ctx: core.Ctx, rel, cls, body, tick_params):
